@@ -16,7 +16,10 @@ package grpc
 // every dial until an op resolves it, a real grpc.Server behind net.Pipe), inside a synctest
 // bubble with a 1s constant back-off:
 //
-//	[1] SubConn.Connect()  [2,ok] the parked dial succeeds (ok!=0) or fails  [3] the server
+//	[1] SubConn.Connect()  [2,ok] the parked dial succeeds (ok!=0) or fails; ok==2: it succeeds
+//	but the peer's preface is followed at once by a GOAWAY which the client's reader processes
+//	before NewHTTP2Client returns (fake conn: SETTINGS+GOAWAY in the first read, client writes
+//	held until the reader is idle again): the transport must not be installed  [3] the server
 //	side closes the connection  [4] one second passes  [5] SubConn.Shutdown()
 //	[6] ClientConn.Close()  [7] ClientConn.ResetConnectBackoff()
 //	[8,same] SubConn.UpdateAddresses: same!=0 the current one-address list again, same==0 a list
@@ -50,6 +53,7 @@ package grpc
 import (
 	"context"
 	"errors"
+	"io"
 	"net"
 	"runtime"
 	"strconv"
@@ -158,8 +162,9 @@ type vConnStateEnv struct {
 	mu        sync.Mutex
 	delivered []int64
 	sc        balancer.SubConn
-	dialCh    chan bool
+	dialCh    chan int64
 	parked    int
+	lost      *vConnStateLostConn
 	srvConns  []net.Conn
 	lis       *vConnStateLis
 	health    bool
@@ -293,6 +298,47 @@ func (b *vConnStateLB) ExitIdle()                                               
 
 var vConnStateOnce sync.Once
 
+// vConnStateLostConn is a connection whose peer sends its HTTP/2 preface (SETTINGS) and a GOAWAY
+// in the first read and nothing more; client writes block until gate is closed.
+type vConnStateLostConn struct {
+	mu    sync.Mutex
+	read  bool
+	gate  chan struct{}
+	done  chan struct{}
+	close sync.Once
+}
+
+func (c *vConnStateLostConn) Read(b []byte) (int, error) {
+	c.mu.Lock()
+	first := !c.read
+	c.read = true
+	c.mu.Unlock()
+	if first {
+		return copy(b, []byte{0, 0, 0, 4, 0, 0, 0, 0, 0, 0, 0, 8, 7, 0, 0, 0, 0, 0, 0, 0, 0, 0, 0, 0, 0, 0}), nil
+	}
+	<-c.done
+	return 0, io.EOF
+}
+func (c *vConnStateLostConn) Write(b []byte) (int, error) {
+	select {
+	case <-c.gate:
+	case <-c.done:
+		return 0, io.ErrClosedPipe
+	}
+	select {
+	case <-c.done:
+		return 0, io.ErrClosedPipe
+	default:
+	}
+	return len(b), nil
+}
+func (c *vConnStateLostConn) Close() error                     { c.close.Do(func() { close(c.done) }); return nil }
+func (c *vConnStateLostConn) LocalAddr() net.Addr              { return &net.UnixAddr{Name: "verif-l", Net: "unix"} }
+func (c *vConnStateLostConn) RemoteAddr() net.Addr             { return &net.UnixAddr{Name: "verif-r", Net: "unix"} }
+func (c *vConnStateLostConn) SetDeadline(time.Time) error      { return nil }
+func (c *vConnStateLostConn) SetReadDeadline(time.Time) error  { return nil }
+func (c *vConnStateLostConn) SetWriteDeadline(time.Time) error { return nil }
+
 // vConnStateWaiters spins until at least n goroutines wait for mu (sync.Mutex state word:
 // waiter count above the three flag bits); bounded, so a different layout only loses the forcing.
 func vConnStateWaiters(mu *sync.Mutex, n int32) {
@@ -306,7 +352,7 @@ func vConnStateWaiters(mu *sync.Mutex, n int32) {
 }
 
 func vConnStateExecB(health bool, ops [][]int64) ([][]int64, bool, []string) {
-	env := &vConnStateEnv{dialCh: make(chan bool), lis: &vConnStateLis{ch: make(chan net.Conn), done: make(chan struct{})},
+	env := &vConnStateEnv{dialCh: make(chan int64), lis: &vConnStateLis{ch: make(chan net.Conn), done: make(chan struct{})},
 		health: health, hevCh: make(chan int64), hboCh: make(chan struct{})}
 	vConnStateCur = env
 	origHC := internal.HealthCheckFunc
@@ -323,7 +369,7 @@ func vConnStateExecB(health bool, ops [][]int64) ([][]int64, bool, []string) {
 		env.mu.Lock()
 		env.parked++
 		env.mu.Unlock()
-		var ok bool
+		var ok int64
 		select {
 		case ok = <-env.dialCh:
 		case <-ctx.Done():
@@ -335,8 +381,15 @@ func vConnStateExecB(health bool, ops [][]int64) ([][]int64, bool, []string) {
 		env.mu.Lock()
 		env.parked--
 		env.mu.Unlock()
-		if !ok {
+		if ok == 0 {
 			return nil, errors.New("verif: scripted dial failure")
+		}
+		if ok == 2 {
+			lc := &vConnStateLostConn{gate: make(chan struct{}), done: make(chan struct{})}
+			env.mu.Lock()
+			env.lost = lc
+			env.mu.Unlock()
+			return lc, nil
 		}
 		c1, c2 := net.Pipe()
 		select {
@@ -395,7 +448,24 @@ func vConnStateExecB(health bool, ops [][]int64) ([][]int64, bool, []string) {
 			p := env.parked
 			env.mu.Unlock()
 			if p > 0 {
-				env.dialCh <- op[1] != 0
+				switch op[1] {
+				case 0:
+					env.dialCh <- 0
+				case 2:
+					// the "server" sends SETTINGS + GOAWAY at once; the client's writes are held
+					// until its reader has processed both (onClose runs while still connecting)
+					env.dialCh <- 2
+					synctest.Wait()
+					env.mu.Lock()
+					lc := env.lost
+					env.lost = nil
+					env.mu.Unlock()
+					if lc != nil {
+						close(lc.gate)
+					}
+				default:
+					env.dialCh <- 1
+				}
 			}
 		case len(op) == 1 && op[0] == 3:
 			env.mu.Lock()
@@ -560,8 +630,9 @@ func vConnStateGen(r *vRand, tier string, idx int) ([]int64, [][]int64) {
 			{1}, {2, 0}, {8, 0}, {9}, {8, 0}, {4}, {1}}
 		return []int64{1}, ops
 	case idx == 7:
-		// part B scripted: the race op outside a back-off, and after a timer-ended back-off
-		ops = [][]int64{{1}, {2, 0}, {4}, {1}, {2, 0}, {9}, {7}, {4}, {9}, {6}}
+		// part B scripted: ResetConnectBackoff during a (then failing) dial must not shorten the
+		// following back-off; the race op outside a back-off, and after a timer-ended back-off
+		ops = [][]int64{{1}, {7}, {2, 0}, {8, 1}, {4}, {1}, {2, 0}, {4}, {1}, {2, 0}, {9}, {7}, {4}, {9}, {6}}
 		return []int64{1}, ops
 	case idx == 9:
 		// the health-managed history of C30_health_managed_transitions_note (gRFC A17), replayed deterministically:
@@ -580,6 +651,14 @@ func vConnStateGen(r *vRand, tier string, idx int) ([]int64, [][]int64) {
 		// GOAWAY without health checking: READY -> IDLE once, nothing on the later close
 		ops = [][]int64{{12}, {1}, {2, 1}, {12}, {3}, {1}, {2, 1}, {12}, {12}, {1}, {2, 0}, {12}, {4}, {1}, {2, 1}, {5}, {12}}
 		return []int64{1, 0}, ops
+	case idx == 19:
+		// a connection that is lost before createTransport finishes: CONNECTING -> IDLE, never READY;
+		// reconnect works at once (no back-off); with and without a parked dial; then a real one
+		ops = [][]int64{{2, 2}, {1}, {2, 2}, {3}, {12}, {4}, {1}, {2, 2}, {1}, {2, 1}, {3}, {1}, {2, 0}, {2, 2}, {4}, {1}, {2, 2}, {5}}
+		return []int64{1, 0}, ops
+	case idx == 21:
+		ops = [][]int64{{1}, {2, 2}, {10, 1}, {11}, {1}, {2, 1}, {10, 1}, {3}, {1}, {2, 2}, {8, 0}, {1}, {2, 2}, {6}}
+		return []int64{1, 1}, ops
 	case idx == 15:
 		// health checking: close / shutdown while the checker is in its back-off, waiting, or gone
 		ops = [][]int64{{1}, {2, 1}, {10, 2}, {6}, {11}, {10, 1}}
@@ -648,7 +727,11 @@ func vConnStateGen(r *vRand, tier string, idx int) ([]int64, [][]int64) {
 				if health {
 					okp = 80 // the health events need a connection
 				}
-				ops = append(ops, []int64{2, int64(vB(r.Chance(okp)))})
+				if r.Chance(10) {
+					ops = append(ops, []int64{2, 2})
+				} else {
+					ops = append(ops, []int64{2, int64(vB(r.Chance(okp)))})
+				}
 			case c < 72:
 				if health && r.Chance(50) {
 					break
